@@ -18,7 +18,7 @@ use std::ops::Range;
 pub static INFO: PropInfo = PropInfo {
     id: "C08",
     level: "fault_enumeration",
-    rule: "two kinds of evaluation. (A) enumerated small scope (exhaustive: true refers to this sub-space only): for n <= 6 (quick) / 7 (thorough) EVERY ordered subset of the packet sequence numbers {0..n-1} (1957 / 13700 orders), each in 3 numberings (dense, stride 2, stride 1000 from a large base), is fed packet by packet to a fresh endpoint through process_packet; after every packet the recorded pending-ack list (hook) must be sorted, disjoint, non-adjacent, <= 64 ranges and denote exactly the fed set, and the ack packet emitted next must denote exactly that set. (B) sampled large scope: simulated lossy sessions (all fault profiles, ack-starved and data-starved directions, >64 disjoint ranges, acks of acks); after every arrival / send / tick the monitor computes from the hook the set of messages the sender no longer retransmits and requires each to have been delivered completely (all slices, byte-identical, decoded with the crate's decoder) to the still-connected peer; the public byte accounting (max - available = sum of lengths of unreleased messages) cross-checks the hook; every emitted Ack range must be a subset of the sequence numbers actually delivered to its emitter. Non-trivial (B) = faults occurred AND at least one message was released; distinct = fingerprints of the fed order (A) / event log (B). In the sessions (B) the other half of the clause is judged at the end: the link was healed for the whole liveness bound and nobody is disconnected, so no reliable message may still be missing at the receiving application while the sender holds it unreleased (it stopped retransmitting something the peer never got). Plus one HUGE MESSAGE run per check (per fourth shard in the thorough tier): a reliable message of more than 2^16 slices (about 79 MB, on a channel configured for it); of its first transmission only the packet carrying one slice with an index above 65535 is delivered and acknowledged; the sender must still hold the message, and after loss-free rounds it must be obtained intact and only then released. Plus one LONG ACK RANGE run per check (per shard in the thorough tier): packet 0 arrives, packets 1..k are lost, more than 2^16 later packets arrive while nothing of the reverse direction gets through; after the receiver's acknowledgement ('0 and one very long run') the sender must still hold exactly messages 1..k.",
+    rule: "two kinds of evaluation. (A) enumerated small scope (exhaustive: true refers to this sub-space only): for n <= 6 (quick) / 7 (thorough) EVERY ordered subset of the packet sequence numbers {0..n-1} (1957 / 13700 orders), each in 3 numberings (dense, stride 2, stride 1000 from a large base), is fed packet by packet to a fresh endpoint through process_packet; after every packet the recorded pending-ack list (hook) must be sorted, disjoint, non-adjacent, <= 64 ranges and denote exactly the fed set, and the ack packet emitted next must denote exactly that set. (B) sampled large scope: simulated lossy sessions (all fault profiles, ack-starved and data-starved directions, >64 disjoint ranges, acks of acks); after every arrival / send / tick the monitor computes from the hook the set of messages the sender no longer retransmits and requires each to have been delivered completely (all slices, byte-identical, decoded with the crate's decoder) to the still-connected peer; the public byte accounting (max - available = sum of lengths of unreleased messages) cross-checks the hook; every emitted Ack range must be a subset of the sequence numbers actually delivered to its emitter. Non-trivial (B) = faults occurred AND at least one message was released; distinct = fingerprints of the fed order (A) / event log (B). In the sessions (B) the other half of the clause is judged at the end: the link was healed for the whole liveness bound and nobody is disconnected, so no reliable message may still be missing at the receiving application while the sender holds it unreleased (it stopped retransmitting something the peer never got). Plus one HUGE MESSAGE run per check (per fourth shard in the thorough tier): a reliable message of more than 2^16 slices (about 79 MB, on a channel configured for it); of its first transmission only the packet carrying one slice with an index above 65535 is delivered and acknowledged; the sender must still hold the message, and after loss-free rounds it must be obtained intact and only then released. Plus one LONG ACK RANGE run per check (per shard in the thorough tier): packet 0 arrives, packets 1..k are lost, more than 2^16 later packets arrive while nothing of the reverse direction gets through; after the receiver's acknowledgement ('0 and one very long run') the sender must still hold exactly messages 1..k. One session run in 24 is a FLOOD run (one connection, hundreds to 2400 tiny messages of one or all channel kinds per tick, so that single packets carry far more than 255 messages). CUT-SHORT runs (60 per shard in the quick tier): a raw pair with one reliable channel, a few small messages per tick; from a seeded tick on, data packets with at least two messages arrive cut to a prefix (by one byte, inside the last message, or anywhere); what was handed over is what the crate's decoder makes of those bytes, and after that tick's acknowledgements every message the sender no longer holds must have been handed over.",
     assumptions: &[
         "the sequence number of a delivered packet is read with the crate's own decoder",
         "wire message ids are mapped to submissions by content",
